@@ -13,6 +13,10 @@
                                                    a writer that refuses a `write_all` call: `Error::Io`, never a panic; what it
                                                    holds is a prefix of the string serialisation; which error is reported when
                                                    the serialisation itself fails too (the first in event order)
+    C16_write_fails_with_io_bytes, C16_write_error_priority_bytes,
+    C16_write_default_any_writer_bytes, C16_utf8   the same in front of a BYTE-level writer (`BytePolicy`, Model/WriterBytes.lean): a
+                                                   refused call lets through `k` bytes, possibly ending inside a multi-byte
+                                                   character; the writer holds a prefix of `utf8` of the string serialisation
     C16_normalizer_*                               the instances for a caller-supplied normalizer: `Xot::tokens(.., normalizer)`
                                                    <-> `serialize_xml_string_with_normalizer`; the event stream of the
                                                    normalised tree
